@@ -12,6 +12,9 @@ from vf.runner import chash
 HOSTILE = ['x = 1', 'a == b # c', '# # #', '(0) (k-1) (t-1)', 'MaxTime = 3', 'this is exogenous to the model',
            'EXOGENOUS', 'Exogenous government spending = 20', 'y(0) = 5', '12345 = 67', 'Err_Tolerance=1',
            "it's \"quoted\"", 't = 5', 'k', '[1,2,3]*3', 'LAG_x = x(k-1)', '= = =']
+HOSTILE += ['Government consumption of goods and services, which this version of the model treats as exogenous = 20 per period',
+            'z' * 70 + ' exogenous ' + 'y' * 40 + ' # x = 1',
+            'a very long description ' * 6 + 'EXOGENOUS variables follow (0) (k-1)']
 HOSTILE_NOMARK = [h for h in HOSTILE if 'exogenous' not in h.lower()]
 MALFORMED = ['just some words', 'a = b = c', 'LL = {v}(k-1) + 1', 'LL = 2*{v}(k-1)', 'LL = {v}(t-1) - {v}',
              'LL = 0.5 *{v} (k -1 )', 'LL = {v} (k -1 ) + 1', 'LL = {v} (k -1 )*{v} (k -1 )', 'LL = 1 + {v}(t-1)',
